@@ -36,6 +36,7 @@ import (
 
 	"github.com/gotd/td/bin"
 	"github.com/gotd/td/proto"
+	"github.com/gotd/td/tg"
 	"pgregory.net/rapid"
 
 	"verifharness/pbt"
@@ -49,7 +50,7 @@ const (
 	// sigGenericNil: decoding as one of the generic wrappers (invokeWithLayer, ...)
 	// created by the type map calls Decode on a nil bin.Object.
 	sigGenericNil = "C21/panic/generic-wrapper-nil-query"
-	sigOverflow   = "C21/stack-overflow/cycle=" // + label
+	sigOverflow   = "C21/stack-overflow/cycle=" // + "<Class>.<constructor>" of the cycle
 )
 
 func encodeObj(o bin.Object) ([]byte, error) {
@@ -1301,6 +1302,13 @@ func TestC21Known(t *testing.T) {
 			t.Logf("listed finding %s no longer reproduces", sigGenericNil)
 		}
 	}
+	if pbt.Known("C21", sigBareVecBoxed) {
+		if v := bareVecBoxedViolation(); v != "" {
+			pbt.ReportKnown("C21", sigBareVecBoxed, v)
+		} else {
+			t.Logf("listed finding %s no longer reproduces", sigBareVecBoxed)
+		}
+	}
 }
 
 // TestC21Cycles lists the cycles (diagnostic; cheap).
@@ -1379,6 +1387,33 @@ func genericNilViolation() (v string) {
 func TestC21Regression_generic_wrapper_nil_query(t *testing.T) {
 	if v := genericNilViolation(); v != "" {
 		t.Fatalf("C21 [signature %s]: %s", sigGenericNil, v)
+	}
+}
+
+// bareVecBoxedViolation: accessPointRule with one ipPort does not survive
+// Encode -> Decode (the elements of `ips:vector<IpPort>` are written without
+// their constructor ids but read with them).
+func bareVecBoxedViolation() string {
+	v := &tg.AccessPointRule{PhonePrefixRules: "+7", DCID: 2, IPs: []tg.IPPortClass{&tg.IPPort{Ipv4: 0x7f000001, Port: 443}}}
+	enc, err := encodeObj(v)
+	if err != nil {
+		return "harness: " + err.Error()
+	}
+	var got tg.AccessPointRule
+	if err := got.Decode(&bin.Buffer{Buf: append([]byte(nil), enc...)}); err != nil {
+		return fmt.Sprintf("accessPointRule{ips:[ipPort]} encodes to %x and that does not decode: %v", enc, err)
+	}
+	if diff := tlEqual(reflect.ValueOf(v), reflect.ValueOf(&got), "accessPointRule"); diff != "" {
+		return "accessPointRule round-trip differs at " + diff
+	}
+	return ""
+}
+
+// TestC21Regression_accessPointRule_roundtrip fails while the encoder writes
+// the elements of accessPointRule.ips bare.
+func TestC21Regression_accessPointRule_roundtrip(t *testing.T) {
+	if v := bareVecBoxedViolation(); v != "" {
+		t.Fatalf("C21 [signature %s]: %s", sigBareVecBoxed, v)
 	}
 }
 
